@@ -27,13 +27,15 @@ type World struct {
 	Pkgs   map[string]*packages.Package // key: path relative to module ("" = root)
 	All    []*packages.Package          // module packages, sorted
 
-	allRoots []*packages.Package
-	cg       *callgraph.Graph
-	reach    map[*ssa.Function]bool
-	pm       *parserModel
-	prog     *ssa.Program
-	ssaPkgs  map[string]*ssa.Package
-	parents  map[ast.Node]ast.Node
+	allRoots     []*packages.Package
+	cg           *callgraph.Graph
+	reach        map[*ssa.Function]bool
+	pm           *parserModel
+	callSites    map[*ssa.Function][]ssa.CallInstruction
+	nonNegFields map[*types.Var]int
+	prog         *ssa.Program
+	ssaPkgs      map[string]*ssa.Package
+	parents      map[ast.Node]ast.Node
 }
 
 type LoadOpts struct {
